@@ -29,8 +29,11 @@ class SP(MultiQueueScheduler):
                     if store.size() == 0:
                         continue
                     packet: Packet = yield store.get()
-                    print(packet)
                     packet.priorities[self.flow2class(packet.flow_id)] = prio
                     yield env.process(self.send_packet(packet))
+                    # strict priority: after every transmission rescan from
+                    # the highest priority instead of moving on to the next
+                    # (lower) class
+                    break
             if self.total_packets == 0:
                 yield self.packets_available.get()
